@@ -124,10 +124,10 @@ func (p *Prog) errorIdiom(fn *ssa.Function, ci ssa.CallInstruction, ev ssa.Value
 
 // useful: does the error value reach something that reports it?
 type errUse struct {
-	Returned   bool
-	Compared   []Edge // non-nil edges
-	PassedOn   bool   // argument of a call / stored in a struct / sent to a callback
-	Inspected  bool   // handed to os.IsNotExist etc.
+	Returned  bool
+	Compared  []Edge // non-nil edges
+	PassedOn  bool   // argument of a call / stored in a struct / sent to a callback
+	Inspected bool   // handed to os.IsNotExist etc.
 }
 
 func (p *Prog) errorUses(fn *ssa.Function, ev ssa.Value) errUse {
@@ -1428,7 +1428,6 @@ func reachingLoads(st *ssa.Store, cell *ssa.Alloc) []ssa.Value {
 	return out
 }
 
-
 // isDeferredClosure: fn is a closure that its parent defers.
 func isDeferredClosure(fn *ssa.Function) bool {
 	for _, mc := range closureSites(fn) {
@@ -1466,7 +1465,6 @@ func readAfterDefers(al *ssa.Alloc) bool {
 	}
 	return false
 }
-
 
 // C12.diagcopy — diagnostics are rewritten on copies.
 func ruleC12DiagCopy(c *Checker) {
@@ -1515,14 +1513,14 @@ func ruleC12DiagCopy(c *Checker) {
 // errorFilters: (producer of the error, classification test) pairs whose
 // matching edge may go on without reporting, one line of reason each.
 var errorFilters = map[string]map[string]string{
-	"os.Lstat":    {"os.IsNotExist": "the entry is absent: that is the answer, not a fault"},
-	"os.Stat":     {"os.IsNotExist": "the entry is absent: that is the answer, not a fault"},
-	"os.Open":     {"os.IsNotExist": "no such file: the caller falls back to defaults"},
-	"os.ReadFile": {"os.IsNotExist": "no such file: the caller falls back to defaults"},
-	"os.Remove":   {"os.IsNotExist": "already gone"},
-	"os.Create":   {"os.IsPermission": "an earlier read-only entry of the same name: retried after a transient chmod, and the retry's error is consumed"},
-	"os.Chmod":    {"os.IsNotExist": "restoring a recorded directory that is no longer there: nothing to restore (upstream's tolerance, kept)"},
-	"os.Chtimes":  {"os.IsNotExist": "restoring a recorded directory that is no longer there: nothing to restore (upstream's tolerance, kept)"},
+	"os.Lstat":                  {"os.IsNotExist": "the entry is absent: that is the answer, not a fault"},
+	"os.Stat":                   {"os.IsNotExist": "the entry is absent: that is the answer, not a fault"},
+	"os.Open":                   {"os.IsNotExist": "no such file: the caller falls back to defaults"},
+	"os.ReadFile":               {"os.IsNotExist": "no such file: the caller falls back to defaults"},
+	"os.Remove":                 {"os.IsNotExist": "already gone"},
+	"os.Create":                 {"os.IsPermission": "an earlier read-only entry of the same name: retried after a transient chmod, and the retry's error is consumed"},
+	"os.Chmod":                  {"os.IsNotExist": "restoring a recorded directory that is no longer there: nothing to restore (upstream's tolerance, kept)"},
+	"os.Chtimes":                {"os.IsNotExist": "restoring a recorded directory that is no longer there: nothing to restore (upstream's tolerance, kept)"},
 	"archive/tar.(Reader).Next": {"== io.EOF": "end of archive"},
 }
 
@@ -1743,7 +1741,6 @@ func isDiagnosticsTypeResult(fn *ssa.Function) bool {
 	}
 	return false
 }
-
 
 // filterAllowed: the classification test may let the error through — the pair
 // (producer, filter) is enumerated, or the producer is a module helper every
@@ -2041,6 +2038,7 @@ func rangeRewrite(p *Prog, host *ssa.Function, isPtr func(ssa.Value) bool, resul
 	}
 	return
 }
+
 // ruleFilesClosed — what is opened is closed.
 func ruleFilesClosed(id string) func(*Checker) {
 	return func(c *Checker) {
